@@ -507,3 +507,24 @@ M("c13-neutral-le", "C13", "cola/libtopology/topology_constraints.cpp",
   "        if(tAlpha<minTAlpha) {\n            minTAlpha=tAlpha;\n            minT=t;", "        if(minTAlpha > tAlpha) {\n            minTAlpha=tAlpha;\n            minT=t;", expect="silent")
 M("c13-posonline-from-final", "C13", "cola/libtopology/topology_graph.cpp",
   "    return i+alpha*d; ", "    return finalPos()-alpha*d; ", mention=["ALPHA-EXACT", "posOnLine"])
+
+# ---------------------------------------------------------------- C19
+M("c19-stem-skipped", "C19", "cola/libdialect/peeling.cpp",
+  "        for (Stem_SP stem : stems) stem->addSelfToGraph(H);", "        for (Stem_SP stem : stems) { if (stems.size() > 64 && stem == stems.front()) continue; stem->addSelfToGraph(H); }",
+  mention=["PEEL-LOOP", "every stem added"])
+M("c19-pop-when-small", "C19", "cola/libdialect/peeling.cpp",
+  "        if (G.isEmpty()) {", "        if (G.isEmpty() || G.getNumNodes() == 1) {", mention=["PEEL-LOOP", "mirror stem"])
+M("c19-sever-other-set", "C19", "cola/libdialect/peeling.cpp",
+  "        buckets.severNodes(leaves);", "        NodesById cut(leaves); if (cut.size() > 1) cut.erase(cut.begin()); buckets.severNodes(cut);", mention=["PEEL-LOOP", "leaves severed"])
+M("c19-move-without-erase", "C19", "cola/libdialect/peeling.cpp",
+  "    newBucket.insert(*it);\n    oldBucket.erase(it);", "    newBucket.insert(*it);\n    if (newDegree > 0) oldBucket.erase(it);", mention=["BUCKETS", "moveNode"])
+M("c19-neighbour-wrong-bucket", "C19", "cola/libdialect/peeling.cpp",
+  "            moveNode(v->id(), degree + 1, degree);", "            moveNode(v->id(), degree, degree - 1);", mention=["BUCKETS", "severNodes"])
+M("c19-root-min-serial", "C19", "cola/libdialect/peeling.cpp",
+  "        if (pn->m_treeSerialNumber >= max_serial_no) {", "        if (pn->m_treeSerialNumber <= max_serial_no) {", mention=["STEMS", "identifyRootNode"])
+M("c19-component-node-stays", "C19", "cola/libdialect/graphs.cpp",
+  "            // ...remove it from the remaining set...\n            remaining.erase(v->id());", "            // ...remove it from the remaining set...\n            if (v->getDegree() > 1) remaining.erase(v->id());",
+  mention=["COMPONENTS"])
+M("c19-neutral-rename", "C19", "cola/libdialect/peeling.cpp",
+  "        vector<Stem_SP> stems = makeStemsFromLeaves(leaves);\n        // Cut the leaves out of the graph.\n        buckets.severNodes(leaves);",
+  "        vector<Stem_SP> stems = makeStemsFromLeaves(leaves);\n        const size_t nStems = stems.size(); (void) nStems;\n        buckets.severNodes(leaves);", expect="silent")
